@@ -71,6 +71,8 @@ def run_variant(args) -> dict:
             named = v.get("expect", "") in out
             status = "ok" if (fired and named) else ("missed" if p.returncode == 0 else
                                                      ("wrong-report" if fired else f"exit{p.returncode}"))
+            if status == "missed" and v.get("known_miss"):
+                status = "known-miss"      # a seeded change the check is known not to see; the reason is in its meta.json and DESIGN 8.5
         tail = "\n".join(out.strip().splitlines()[-6:])
         return {"name": v["name"], "property": v["property"], "status": status, "rc": p.returncode, "tail": tail,
                 "wall": time.time() - t0}
@@ -87,20 +89,27 @@ def main(args) -> int:
         # every confirmed seeded change is a variant too: the check of its property must report a violation
         for d in sorted(seeded.iterdir()):
             if (d / "patch.diff").is_file():
-                allv.append({"name": "seed:" + d.name, "property": d.name.split("-")[0], "patch": d / "patch.diff", "expect": "rule="})
+                v = {"name": "seed:" + d.name, "property": d.name.split("-")[0], "patch": d / "patch.diff", "expect": "rule="}
+                try:
+                    import json
+                    v["known_miss"] = json.loads((d / "meta.json").read_text()).get("known_miss")
+                except Exception:  # noqa: BLE001
+                    pass
+                allv.append(v)
     sel = [v for v in allv if not args.filter or args.filter in v["name"] or args.filter == v["property"]]
     t0 = time.time()
     with ProcessPoolExecutor(max_workers=args.jobs) as ex:
         results = list(ex.map(run_variant, [(v, repo_root, "quick") for v in sel]))
     bad = 0
     for r in results:
-        mark = {"ok": "ok  ", "skipped": "skip"}.get(r["status"], "FAIL")
+        mark = {"ok": "ok  ", "skipped": "skip", "known-miss": "miss"}.get(r["status"], "FAIL")
         print(f"[{mark}] {r.get('property', ''):4s} {r['name']:60s} {r['status']} ({r['wall']:.1f}s)")
-        if r["status"] not in ("ok", "skipped"):
+        if r["status"] not in ("ok", "skipped", "known-miss"):
             bad += 1
             print("       " + r.get("tail", r.get("why", "")).replace("\n", "\n       "))
         elif r["status"] == "skipped":
             print("       " + r.get("why", ""))
     print(f"selftest: {len(results)} variants, {bad} failing, {sum(r['status'] == 'skipped' for r in results)} skipped, "
+          f"{sum(r['status'] == 'known-miss' for r in results)} known misses, "
           f"{time.time() - t0:.1f}s")
     return 1 if bad else 0
